@@ -1,1 +1,85 @@
-// kani harnesses (included from /repo under cfg(kani))
+// C18-O3: allocator bitmap kernels on the real 8 KiB bitmap.
+// Included from /repo/nervusdb-storage/src/pager.rs under cfg(kani).
+use super::*;
+
+fn bitmap_with_window(base: usize) -> Bitmap {
+    // bytes outside a symbolic 4-byte window are concrete zero (plus the two reserved bits set by new())
+    let mut b = Bitmap::new();
+    let w: [u8; 4] = kani::any();
+    b.data[base] |= w[0];
+    b.data[base + 1] = w[1];
+    b.data[base + 2] = w[2];
+    b.data[base + 3] = w[3];
+    b
+}
+
+/// set_bit changes exactly bit i; get_bit reads it back
+#[kani::proof]
+#[kani::unwind(6)]
+fn c18_o3_q_set_get_bit() {
+    let mut b = bitmap_with_window(0);
+    let i: u64 = kani::any();
+    let j: u64 = kani::any();
+    kani::assume(i < 64 && j < 64 && i != j);
+    let v: bool = kani::any();
+    let before_j = b.get_bit(j);
+    b.set_bit(i, v);
+    kani::cover!(true, "witness: reached");
+    assert!(b.get_bit(i) == v, "bitmap: set_bit then get_bit reads the value");
+    assert!(b.get_bit(j) == before_j, "bitmap: set_bit leaves every other bit unchanged");
+}
+
+/// set_bit / get_bit address arithmetic for any bit of the bitmap (byte index in range, mask single bit)
+#[kani::proof]
+#[kani::unwind(6)]
+fn c18_o3_q_set_get_bit_any_index() {
+    let mut b = Bitmap::new();
+    let i: u64 = kani::any();
+    kani::assume(i >= 2 && i < BITMAP_BITS);
+    let j: u64 = kani::any();
+    kani::assume(j < BITMAP_BITS && j != i);
+    let before_j = b.get_bit(j);
+    b.set_bit(i, true);
+    kani::cover!(i == BITMAP_BITS - 1, "witness: last bit reachable");
+    assert!(b.get_bit(i), "bitmap: set bit reads back");
+    assert!(b.get_bit(j) == before_j, "bitmap: other bits unchanged");
+    b.set_bit(i, false);
+    assert!(!b.get_bit(i), "bitmap: cleared bit reads back");
+}
+
+/// find_free_in_range(2, n) returns the least clear bit in [2, n) or None
+#[kani::proof]
+#[kani::unwind(36)]
+fn c18_o3_q_find_free_least() {
+    let b = bitmap_with_window(0);
+    let n: u64 = kani::any();
+    kani::assume(n <= 32);
+    let r = b.find_free_in_range(2, n);
+    kani::cover!(r.is_some(), "witness: free bit found reachable");
+    kani::cover!(r.is_none() && n > 2, "witness: full range reachable");
+    match r {
+        Some(k) => {
+            assert!(k >= 2 && k < n, "allocator: candidate inside the scanned range (never page 0/1)");
+            assert!(!b.get_bit(k), "allocator: candidate page was free");
+            let m: u64 = kani::any();
+            kani::assume(m >= 2 && m < k);
+            assert!(b.get_bit(m), "allocator: candidate is the least free page");
+        }
+        None => {
+            let m: u64 = kani::any();
+            kani::assume(m >= 2 && m < n);
+            assert!(b.get_bit(m), "allocator: None only if every page in range is allocated");
+        }
+    }
+}
+
+/// a fresh bitmap reserves exactly the meta and bitmap pages
+#[kani::proof]
+#[kani::unwind(6)]
+fn c18_o3_q_new_bitmap_reserves_meta_pages() {
+    let b = Bitmap::new();
+    let i: u64 = kani::any();
+    kani::assume(i < BITMAP_BITS);
+    kani::cover!(i > 1, "witness: data page reachable");
+    assert!(b.get_bit(i) == (i < 2), "bitmap: only pages 0 and 1 are allocated in a fresh file");
+}
